@@ -161,7 +161,7 @@ impl Property for C01 {
         "C01"
     }
     fn rule(&self) -> &'static str {
-        "grid: key = PDU length 0..=4100; for each: 5 label cases (6-byte, 3-byte, broadcast, 6-byte primed, 3-byte primed = re-use substitution when enabled) x 7 buffer sizes (exact-1, exact, exact+1 for the label as written, 4097, 4098, 65536, 70000) x re-use on/off x storage (== PDU, +1, 70000; one cell in seven on a receiver configured for 16-byte PDUs that also owns a buffer of that size, after its 16-byte buffer was used up); random: seeded cells over all protocol types >= 0x0600, 5 content classes, random buffer/storage; longrun: 800 complete packets with one label under re-use limits 0,1,2,3,254,255; traffic: the round trip of a complete packet at the end of a seeded lock-step history (fragment trains in flight or completed in between, re-use substitutions, resets, configuration changes, end packets re-sent from stale contexts which the receiver refuses); ptypes (thorough): every protocol type 0x0600..=0xFFFF at three PDU sizes. Non-trivial = encap returned a completed packet that was fed to decap and compared (outcome 'delivered'); fingerprint = (pdu length, label case, buffer, re-use, storage) or (ptype,size)."
+        "grid: key = PDU length 0..=4100; for each: 5 label cases (6-byte, 3-byte, broadcast, 6-byte primed, 3-byte primed = re-use substitution when enabled) x 7 buffer sizes (exact-1, exact, exact+1 for the label as written, 4097, 4098, 65536, 70000) x re-use on/off x storage (== PDU, +1, 70000; one cell in seven on a receiver configured for 16-byte PDUs that also owns a buffer of that size, after its 16-byte buffer was used up); random: seeded cells over all protocol types >= 0x0600, 5 content classes, random buffer/storage; longrun: 800 complete packets with one label under re-use limits 0,1,2,3,254,255; traffic: the round trip of a complete packet at the end of a seeded lock-step history (fragment trains in flight or completed in between, re-use substitutions, resets, configuration changes, end packets re-sent from stale contexts which the receiver refuses, failing calls of every kind, fragment ids sharing a receiver slot; one history in four on a receiver short of storage whose application keeps delivered buffers: after a legitimately refused packet the final packet may be refused, but if delivered every field is right); ptypes (thorough): every protocol type 0x0600..=0xFFFF at three PDU sizes. Non-trivial = encap returned a completed packet that was fed to decap and compared (outcome 'delivered'); fingerprint = (pdu length, label case, buffer, re-use, storage) or (ptype,size)."
     }
     fn gens(&self, cx: &Cx) -> Vec<Gen> {
         let mut g = vec![Gen { name: "grid", count: 4101, exhaustive: true }, Gen { name: "random", count: cx.n(100_000, 6_000_000), exhaustive: false }];
